@@ -6,8 +6,9 @@
 (*   sim   : random wide cases built item by item (tlc -simulate); SimDump prints finished ones        *)
 EXTENDS P2Bin_MC, Json
 
-CaseOut(cc) == [c |-> cc, exp |-> Run({}, cc), def |-> Definite(cc),
-                allowed |-> Definite(cc) => Allowed(cc, Run({}, cc))]
+CaseOut(cc) == LET r == Run({}, cc)
+                   d == Definite(cc)
+               IN [c |-> cc, exp |-> r, def |-> d, allowed |-> d => Allowed(cc, r)]
 
 \* ---- cover ----------------------------------------------------------------------------------------
 CoverInit == c \in CaseSpace /\ pc = "gen" /\ idx = 1 /\ m = M0(c.o) /\ s = Blank /\ out = NoOut
@@ -41,8 +42,9 @@ SimCS == {<<81, 1>>, <<97, 1>>, <<81, 2>>, <<112, 1>>}
 SimShapes(G) == {sh \in [k : {"D"}, start : SimStarts, units : {0, 1, 2, 4, 8}, gran : {1, 2, 4}, cs : SimCS] :
                     sh.cs[2] = 1 => sh.gran = G}
                 \cup [k : {"E"}, addr : {4660, 74565}]
-SimLo == {-1, 0, 4, 8, 12, 16, 20, 24, 32, 1, 2, 6}
-SimHi == {-1, 3, 7, 11, 15, 19, 23, 31, 39, 47, 5, 12}
+\* lower bounds of every phase of the lane period (1, 2, 3 mod 4) with upper bounds that make whole periods
+SimLo == {-1, 0, 4, 8, 12, 16, 20, 24, 32, 1, 2, 6, 3, 5, 9, 13, 17, 18}
+SimHi == {-1, 3, 7, 11, 15, 19, 23, 31, 39, 47, 5, 12, 8, 10, 14, 16, 20, 21, 22, 33}
 NItems(cc) == Sum([i \in 1..Len(cc.files) |-> Len(cc.files[i].items)])
 SimInit == /\ c = [files |-> <<[off |-> 0, items |-> <<>>]>>, o |-> SimDefault]
            /\ pc = "sim" /\ idx = 0 /\ m = M0(SimDefault) /\ s = Blank /\ out = NoOut
